@@ -297,11 +297,8 @@ macro_rules! impl_derivatives {
 
             #[inline]
             fn sph_j0(&self) -> Self {
-                if self.re().abs() < F::epsilon() {
-                    let s2 = self * self;
-                    let t = Self::one() - s2.clone() / F::from(42.0).unwrap();
-                    let t = Self::one() - s2.clone() / F::from(20.0).unwrap() * t;
-                    Self::one() - s2 / F::from(6.0).unwrap() * t
+                if self.re().abs() < F::one() {
+                    $crate::sph_bessel_series::<Self, F>(self, 0)
                 } else {
                     self.sin() / self
                 }
@@ -309,11 +306,8 @@ macro_rules! impl_derivatives {
 
             #[inline]
             fn sph_j1(&self) -> Self {
-                if self.re().abs() < F::epsilon() {
-                    let s2 = self * self;
-                    let t = Self::one() - s2.clone() / F::from(28.0).unwrap();
-                    let t = Self::one() - s2 / F::from(10.0).unwrap() * t;
-                    self.clone() / F::from(3.0).unwrap() * t
+                if self.re().abs() < F::one() {
+                    self.clone() / F::from(3.0).unwrap() * $crate::sph_bessel_series::<Self, F>(self, 1)
                 } else {
                     let (s, c) = self.sin_cos();
                     (s - self * c) / (self * self)
@@ -322,11 +316,8 @@ macro_rules! impl_derivatives {
 
             #[inline]
             fn sph_j2(&self) -> Self {
-                if self.re().abs() < F::epsilon() {
-                    let s2 = self * self;
-                    let t = Self::one() - s2.clone() / F::from(36.0).unwrap();
-                    let t = Self::one() - s2.clone() / F::from(14.0).unwrap() * t;
-                    s2 / F::from(15.0).unwrap() * t
+                if self.re().abs() < F::one() {
+                    self * self / F::from(15.0).unwrap() * $crate::sph_bessel_series::<Self, F>(self, 2)
                 } else {
                     let (s, c) = self.sin_cos();
                     let s2 = self * self;
